@@ -456,6 +456,7 @@ pub fn run(ctx: &mut Ctx) -> Result<RunOut, Violation> {
     let _g = MaterialiseGuard;
     match ctx.mode {
         1 => run_streaming(ctx),
+        2 => run_file(ctx),
         _ => run_serve(ctx),
     }
 }
@@ -473,6 +474,7 @@ fn fs(f: &str) -> &'static str {
         "C13" => "C13",
         "C15" => "C15",
         "C17" => "C17",
+        "C18" => "C18",
         _ => "C01",
     }
 }
@@ -1426,4 +1428,236 @@ fn run_streaming(ctx: &mut Ctx) -> Result<RunOut, Violation> {
         }
     }
     Ok(RunOut { sig, nontrivial: !accepted.is_empty() || is_gz })
+}
+
+// ------------------------------------------------------------------ mode 2: the crate's own file entity on the wire
+
+/// `serve(ChunkedReadFile)` behind real hyper: real file, positioned reads behind the read seam
+/// (short reads, truncation / EIO / EINTR at a drawn read instant), simulated socket. A response
+/// whose file was truncated under it must not look complete to the client; a complete one
+/// carries exactly the file's bytes.
+fn run_file(ctx: &mut Ctx) -> Result<RunOut, Violation> {
+    use crate::engine_d::{install_hook, scratch_dir, write_file, FaultD, HookState};
+    type Crf = http_serve::ChunkedReadFile<SimData, SimError>;
+    let focus = ctx.focus;
+    let t = &mut ctx.tape;
+    let len = match t.draw(8) {
+        0 => 0,
+        1 => 1,
+        2 => 65_535 + t.draw(3) as u64,
+        3 => 131_072,
+        4 => 200_001,
+        5 => 2 + t.draw(300) as u64,
+        _ => t.draw(150_000) as u64,
+    };
+    let seed = t.draw(u32::MAX) as u64;
+    let pos = |t: &mut Tape| if len == 0 { 0 } else { [0, 1, 65_535, 65_536, 65_537, len - 1, len / 2][t.draw(7) as usize].min(len - 1).max(0) };
+    // request: whole, one range, or two ranges (fault-free runs only)
+    let with_fault = t.chance(1, 2);
+    let (range_hdr, want): (Option<String>, Vec<(u64, u64)>) = match t.draw(if with_fault { 3 } else { 5 }) {
+        0 => (None, vec![]),
+        1 | 2 if len > 0 => {
+            let a = pos(t);
+            let b = (a + t.draw(100_000) as u64).min(len - 1);
+            if t.chance(1, 3) { (Some(format!("bytes={a}-")), vec![(a, len - 1)]) } else { (Some(format!("bytes={a}-{b}")), vec![(a, b)]) }
+        }
+        3 | 4 if len > 4000 => {
+            let a = pos(t).min(len - 300);
+            let b = a + t.draw(200) as u64;
+            let c = pos(t).min(len - 300);
+            let d = c + t.draw(200) as u64;
+            (Some(format!("bytes={a}-{b}, {c}-{d}")), vec![(a, b), (c, d)])
+        }
+        _ => (None, vec![]),
+    };
+    let range_end = want.iter().map(|w| w.1 + 1).max().unwrap_or(len);
+    let range_start = want.iter().map(|w| w.0).min().unwrap_or(0);
+    let dir = scratch_dir();
+    let path = dir.join("w");
+    let _ = std::fs::remove_file(&path);
+    let wfile = write_file(&path, seed, len);
+    let clamp: Vec<u32> = match t.draw(4) {
+        0 => vec![],
+        1 => vec![1; 8],
+        2 => (0..12).map(|_| 1 + t.draw(70_000)).collect(),
+        _ => (0..12).map(|_| if t.chance(1, 2) { 0 } else { 1 + t.draw(5000) }).collect(),
+    };
+    let fault = if with_fault && len > 0 {
+        let at = t.draw(4);
+        Some((at, match t.draw(4) {
+            0 => FaultD::Truncate(range_start),
+            1 => FaultD::Truncate(range_start + t.below(range_end - range_start)),
+            2 => FaultD::Eio,
+            _ => FaultD::Eintr,
+        }))
+    } else {
+        None
+    };
+    let hook = Rc::new(RefCell::new(HookState { reads: 0, fault, fired: None, clamp, wfile, log: Vec::new() }));
+    let keep_alive = t.chance(1, 2);
+    let io = Rc::new(RefCell::new(IoState::default()));
+    let mut plan = ReqPlan { method: if t.chance(1, 10) { "HEAD".into() } else { "GET".into() }, specs: None, headers: vec![], has_if_range: false, corrupted: false };
+    if let Some(r) = &range_hdr {
+        plan.headers.push(("range".into(), r.clone().into_bytes()));
+    }
+    let req = render_request(&plan, "HTTP/1.1", &[]);
+    {
+        let mut s = io.borrow_mut();
+        s.input = req.clone();
+        s.in_avail = req.len();
+        gen_transport(t, &mut s, false, 0);
+    }
+    let crf = match Crf::new(std::fs::File::open(&path).expect("open"), http::HeaderMap::new()) {
+        Ok(c) => c,
+        Err(e) => return violation("C18", "regular-file-refused", e.to_string()),
+    };
+    install_hook(&hook);
+    struct HookReset;
+    impl Drop for HookReset {
+        fn drop(&mut self) {
+            http_serve::verif::set_read_hook(None);
+        }
+    }
+    let _hr = HookReset;
+    let seen: Rc<RefCell<Option<(u16, Vec<(String, Vec<u8>)>)>>> = Rc::new(RefCell::new(None));
+    let svc = {
+        let (seen, crf) = (seen.clone(), crf.clone());
+        hyper::service::service_fn(move |req: http::Request<hyper::body::Incoming>| {
+            let (seen, crf) = (seen.clone(), crf.clone());
+            async move {
+                let resp = http_serve::serve(crf, &req);
+                *seen.borrow_mut() = Some((resp.status().as_u16(), resp.headers().iter().map(|(k, v)| (k.as_str().to_string(), v.as_bytes().to_vec())).collect()));
+                Ok::<_, std::convert::Infallible>(resp)
+            }
+        })
+    };
+    let mut builder = hyper::server::conn::http1::Builder::new();
+    builder.auto_date_header(false).keep_alive(keep_alive).half_close(true);
+    let conn = builder.serve_connection(SimIo(io.clone()), svc);
+    let mut conn = Some(Box::pin(conn));
+    let (flag, waker) = new_waker();
+    let mut out = Outcome { finished: None, polls: 0, stalled: false, panic: None, spurious: 0 };
+    let mut eof_given = false;
+    for _ in 0..10_000 {
+        run_until_idle(&mut conn, &mut out, &flag, &waker);
+        if out.finished.is_some() || out.panic.is_some() || out.stalled {
+            break;
+        }
+        if environment_step(None, &io) {
+            continue;
+        }
+        if !eof_given {
+            eof_given = true;
+            let mut s = io.borrow_mut();
+            s.in_eof = true;
+            if let Some(w) = s.read_waker.take() {
+                drop(s);
+                w.wake();
+            }
+            continue;
+        }
+        break;
+    }
+    drop(conn);
+    http_serve::verif::set_read_hook(None);
+    let s = io.borrow();
+    let h = hook.borrow();
+    ctx.ev("wire", s.wire.len() as u64, hash_bytes(&s.wire));
+    ctx.ev("reads", h.reads as u64, h.fired.is_some() as u64);
+    let stats = &mut *ctx.stats;
+    stats.add("f_conn_polls", out.polls);
+    stats.add("f_file_reads", h.reads as u64);
+    stats.add("f_wire_bytes", s.wire.len() as u64);
+    if let Some((f, _)) = &h.fired {
+        stats.bump(match f {
+            FaultD::Truncate(_) => "fault_truncate",
+            FaultD::Extend(_) => "fault_extend",
+            FaultD::Eintr => "fault_eintr",
+            FaultD::Eio => "fault_eio",
+        });
+    }
+    let describe = || format!("{} {:?} on a {len}-byte file; fault {:?} fired {:?}; reads {:?}; conn outcome {:?}; wire {} bytes: {:?}", plan.method, range_hdr, fault, h.fired, h.log.iter().take(8).collect::<Vec<_>>(), out.finished, s.wire.len(), String::from_utf8_lossy(&s.wire[..s.wire.len().min(240)]));
+    if ctx.trace.is_some() {
+        let d = describe();
+        ctx.note(|| d);
+    }
+    if ctx.run_index < 64 {
+        ctx.sample = Some(json!({"file_len": len, "range": range_hdr, "fault": format!("{fault:?}"), "fired": format!("{:?}", h.fired), "wire_bytes": s.wire.len()}));
+    }
+    let sig = mix(mix(len.min(70_000) / 1000, want.len() as u64), match h.fired { Some((FaultD::Truncate(_), _)) => 1, Some((FaultD::Eio, _)) => 2, Some((FaultD::Eintr, _)) => 3, Some(_) => 4, None => 0 } ^ (h.reads.min(6) as u64) << 4 ^ (s.short_writes.min(2)) << 8);
+    if let Some(p) = &out.panic {
+        return violation(fs(focus), "panic", format!("{p}; {}", describe()));
+    }
+    if out.stalled {
+        return violation(fs(focus), "hang", describe());
+    }
+    let Some((status, hdrs)) = seen.borrow().clone() else { return Ok(RunOut { sig, nontrivial: false }) };
+    let head = plan.method == "HEAD";
+    let closed = out.finished.is_some() || s.shutdown;
+    let resp = match parse_response(&s.wire, 0, head, closed) {
+        Ok(Some(r)) => r,
+        Ok(None) => {
+            if h.fired.is_some() && matches!(out.finished, Some(Err(_))) {
+                return Ok(RunOut { sig, nontrivial: true }); // failed before anything was flushed
+            }
+            return violation(fs(focus), "no-response-on-the-wire", describe());
+        }
+        Err(e) => return violation(fs(focus), "malformed-wire", format!("{e}; {}", describe())),
+    };
+    if resp.status != status || hdrs.iter().any(|(k, v)| !resp.headers.iter().any(|x| x.0 == *k && x.1 == *v)) {
+        return violation(fs(focus), "wire-head-differs", describe());
+    }
+    if head {
+        if !resp.body.is_empty() {
+            return violation(fs(focus), "head-body-on-the-wire", describe());
+        }
+        return Ok(RunOut { sig, nontrivial: false });
+    }
+    // A truncation that leaves the range short of bytes must surface as an aborted transfer.
+    if let Some((FaultD::Truncate(to), off)) = h.fired {
+        if to < range_end && off < range_end && matches!(status, 200 | 206) {
+            if resp.complete {
+                return violation(fs(focus), "truncated-file-response-looks-complete-on-the-wire", describe());
+            }
+            if !closed {
+                return violation(fs(focus), "connection-kept-open-after-failed-body", describe());
+            }
+            return Ok(RunOut { sig, nontrivial: true });
+        }
+    }
+    if !resp.complete {
+        if h.fired.is_some() {
+            return Ok(RunOut { sig, nontrivial: true }); // a failed read may abort the transfer
+        }
+        return violation(fs(focus), "response-incomplete-on-the-wire", describe());
+    }
+    // Complete: exactly the file's bytes.
+    let expect_status = if want.is_empty() { 200 } else { 206 };
+    if status != expect_status && !(len == 0) {
+        return violation(fs(focus), "status", format!("expected {expect_status}; {}", describe()));
+    }
+    let segs = vec![Seg::Lit(resp.body.clone())];
+    if status == 200 {
+        let mut c = Cur::new(&segs, seed);
+        if let Err(e) = c.take_entity(0, len).and_then(|_| if c.at_end() { Ok(()) } else { Err("extra bytes".to_string()) }) {
+            return violation(fs(focus), "wire-body-differs-from-the-file", format!("{e}; {}", describe()));
+        }
+    } else if status == 206 && want.len() == 1 {
+        let (a, b) = want[0];
+        let mut c = Cur::new(&segs, seed);
+        if let Err(e) = c.take_entity(a, b - a + 1).and_then(|_| if c.at_end() { Ok(()) } else { Err("extra bytes".to_string()) }) {
+            return violation(fs(focus), "wire-body-differs-from-the-file", format!("{e}; {}", describe()));
+        }
+    } else if status == 206 {
+        let ct = resp.hdr("content-type").unwrap_or(b"");
+        match mpart::boundary_of(ct).and_then(|bd| mpart::parse(&segs, seed, &bd)) {
+            Err(e) => return violation(fs(focus), "malformed-multipart-on-the-wire", format!("{e}; {}", describe())),
+            Ok(parts) => {
+                if parts.len() != want.len() {
+                    return violation(fs(focus), "multipart-parts", format!("{} parts for {} ranges; {}", parts.len(), want.len(), describe()));
+                }
+            }
+        }
+    }
+    Ok(RunOut { sig, nontrivial: true })
 }
